@@ -496,26 +496,22 @@ def updaterOf (k : String) : Option Updater :=
 
 def updaterKeys : List String := ["$set", "$unset", "$inc", "$max", "$min", "$pop"]
 
-/-- the replacement branch (`else: if first: …`): the whole document is replaced -/
-def replaceWhole (spec : Val) (document : Fields) (existing : Val) : R Val :=
+/-- the replacement branch (`else: if first: …`): the whole document is replaced; the `_id`
+    is the one of the document being replaced (when it has one) -/
+def replaceWhole (document : Fields) (existing : Val) : R Val :=
   if document.any (fun kv => kv.1.startsWith "$") then .error .valueErr
   else
-    match spec, existing with
-    | .doc ss, .doc es =>
-      let id := match dget "_id" ss with
-        | some x => some x
-        | none => dget "_id" es
+    match existing with
+    | .doc es =>
+      let id := dget "_id" es
       let base : Fields := match id with
-        | some .null => []
         | some x => [("_id", x)]
         | none => []
       let merged := document.foldl (fun acc kv => dset kv.1 kv.2 acc) base
-      (match dget "_id" merged with
-       | none => .error .keyErr
-       | some nid =>
-         -- `existing_document['_id'] != _id` (with `_id = None` when absent everywhere)
-         if !(pyEq nid (id.getD .null)) then .error .opFail else .ok (.doc merged))
-    | _, _ => unmodelled
+      (match id, dget "_id" merged with
+       | some x, some nid => if !(pyEq nid x) then .error .opFail else .ok (.doc merged)
+       | _, _ => .ok (.doc merged))
+    | _ => unmodelled
 
 /-- the operator loop of `_apply_update` on one document.  `first` mirrors the Python flag
     (note: a skipped `$setOnInsert` leaves it untouched because of the `continue`). -/
@@ -551,7 +547,7 @@ def applyOps (spec : Val) (now : Val) (wasInsert : Bool) (whole : Fields) :
       else if k = "$push" then do
         let d' ← eachField v d (pushField spec)
         applyOps spec now wasInsert whole rest false d'
-      else if first then replaceWhole spec whole d
+      else if first then replaceWhole whole d
       else .error .valueErr
 
 /-- the per-document part of `_apply_update`: operators, then the empty-document branch -/
@@ -559,15 +555,12 @@ def applyUpdate (spec : Val) (document : Val) (now : Val) (wasInsert : Bool) (ex
     R Val :=
   match document with
   | .doc [] =>
-    (match spec, existing with
-     | .doc ss, .doc es =>
-       let id := match dget "_id" ss with
-         | some x => some x
-         | none => dget "_id" es
-       (match id with
+    (match existing with
+     | .doc es =>
+       (match dget "_id" es with
         | some x => .ok (.doc [("_id", x)])
         | none => .ok (.doc []))
-     | _, _ => unmodelled)
+     | _ => unmodelled)
   | .doc fs => applyOps spec now wasInsert fs fs true existing
   | _ => .error .typeErr
 
